@@ -19,7 +19,7 @@ func init() {
 	planTable["C02"] = mk("core", "a client received at least one frame carrying a resource set while it already held other resources")
 	planTable["C03"] = mk("core,query,reset", "at least one holding interval was checked against the service's event stream and a client had received at least one event frame")
 	planTable["C07"] = mk("core,throttle,burst", "a connection sent a request while an earlier request of its own was still unanswered")
-	planTable["C08"] = mk("core", "at least two unsubscribe verdicts were compared with the counter model")
+	planTable["C08"] = mk("core,core,access,limits", "at least two unsubscribe verdicts were compared with the counter model")
 	planTable["C09"] = mk("core,reset", "at least one event subscription was released before the final teardown and the end-of-run leak check ran")
 	planTable["C04"] = mk("access", "data was handed to a client as the requested resource at least once (oracle C04.a) in a run in which a revocation trigger (token event on a connection with a token, reaccess event, access reset) was delivered")
 	planTable["C05"] = mk("access", "at least one call/new/auth request was judged (oracle C05.a) in a run in which a revocation trigger was delivered")
